@@ -11,5 +11,6 @@ CONSTANTS
  KF_GuardOnVisibleOnly = FALSE
  KF_SurvivorsOnly = FALSE
  KF_RetryUnguarded = FALSE
+ KF_CloneSwap = TRUE
 POSTCONDITION Done
 CHECK_DEADLOCK FALSE
